@@ -79,7 +79,7 @@ def derefTexts (fields : List Pat) : List Str :=
     let bs := opt (fieldTexts fields "register_multiplier")
     let cs := opt (fieldTexts fields "constant_multiplier")
     let ks := opt (fieldTexts fields "constant_offset")
-    let sp (pre : String) (l : List Str) : List Str := l.flatMap (withOpt pre.toList)
+    let sp (pre : String) (l : List Str) : List Str := l.map (pre.toList ++ ·) ++ l     -- with the optional prefix, without it
     let mids : List Str := match bs, cs with
       | some b, some c => (sp "%" b).flatMap fun b' => (sp "0x" c).map fun c' => '+' :: b' ++ '*' :: c'
       | some b, none => (sp "%" b).map fun b' => '+' :: b'
